@@ -1107,8 +1107,13 @@ def run(ctx):
     res = Results()
     rng = ctx.rng
     # (a) corpus first
-    cc = [parse_corpus_line(l) for l in corpus_lines(ctx.verif, 'C01')]
+    lines = corpus_lines(ctx.verif, 'C01')
+    cc = [parse_corpus_line(l) for l in lines if not l.startswith('{')]
     evaluate(ctx, cc, res, 'corpus')
+    # corpus lines that are JSON objects are session-layer scenarios (harness/c01_session.py)
+    from harness import c01_session
+    c01_session._evaluate(ctx, [json.loads(l) for l in lines if l.startswith('{')], res,
+                          scope='corpus_session')
     # (b) targeted families, then exhaustive small scopes (smallest first; no enlarging once
     # something failed)
     evaluate(ctx, list(reuse_cases()), res, 'late_answer_after_later_request')
@@ -1139,7 +1144,6 @@ def run(ctx):
     for c in gen[:2] + hostile[:1]:
         res.sample({'model_line': abstract(c)})
     # (d) session layer (partial: the await plumbing is asyncio's)
-    from harness import c01_session
     c01_session.run(ctx, res)
     return res.finish(RULE, exhaustive=not unlisted_failure(ctx, res))
 
